@@ -3,6 +3,7 @@ import Pm.ReplyProof
 import Pm.Daemon
 import Pm.Dev2Clip
 import Pm.ToBuf
+import Pm.Dev2Walk
 /-! Helper lemmas for C10 (second part): `LoginHead` through `_handle_ready_device`, the ping append, the whole of
     `dev_post_poll`, the client enqueue; reachability; FIFO completions; "only the head speaks"; the device output
     buffer.  The model definitions are not touched: `handleReady` and `postPoll` are cut into pieces here and the
@@ -11,11 +12,8 @@ namespace Pm.Dev2.Login2
 
 /-! ## 1. `_handle_ready_device` in pieces -/
 
-/-- the connect did not complete: close(dev->fd); dev->fd = NO_FD; next address: none -/
-def readyConnectFail (c : CS) : CS :=
-  match c.dev.fd with
-  | some fd => { c with sys := c.sys ++ [.close fd], dev := { c.dev with fd := none, curAddr := false, conn := 0 } }
-  | none => { c with dev := { c.dev with curAddr := false, conn := 0 } }
+/-- the connect did not complete: `close(dev->fd); dev->fd = NO_FD`, on with the next address (`Dev2.finishConnectFail`) -/
+def readyConnectFail (c : CS) : CS := finishConnectFail c
 
 /-- what `_handle_ready_device` does with the outcome of the connect -/
 def readyConnectTail (c : CS) : CS × Bool × Bool :=
@@ -23,8 +21,9 @@ def readyConnectTail (c : CS) : CS × Bool × Bool :=
   else if c.dev.conn == 2 then ({ c with dev := enqueueLogin c.dev }, false, true)
   else (c, false, true)
 
-/-- `revents & POLLOUT` while CONNECTING: finish the non-blocking connect -/
+/-- `revents & POLLOUT` while CONNECTING: finish the non-blocking connect (`assert(dev->finish_connect != NULL)`: a tcp device) -/
 def readyConnect (c : CS) : CS × Bool × Bool :=
+  if c.dev.isPipe then ({ c with sys := c.sys ++ [.abort "assert finish_connect != NULL"], aborted := true }, false, true) else
   readyConnectTail (if (finishConnectOne c).2 then (finishConnectOne c).1 else readyConnectFail (finishConnectOne c).1)
 
 /-- `revents & POLLOUT` while CONNECTED: flush the output buffer -/
@@ -111,7 +110,10 @@ theorem readyConnectTail_loginHead (c : CS) : LoginHead (readyConnectTail c).1.d
     · intro _ _; exact enqueueLogin_head _
     · rename_i h; exact LoginHead.of_not_connected (by simpa using h)
 
-theorem readyConnect_loginHead (c : CS) : LoginHead (readyConnect c).1.dev := readyConnectTail_loginHead _
+theorem readyConnect_loginHead (c : CS) (h : LoginHead c.dev) : LoginHead (readyConnect c).1.dev := by
+  unfold readyConnect; split
+  · exact h
+  · exact readyConnectTail_loginHead _
 
 theorem readyTail_loginHead (f : Nat) (r : CS × Bool × Bool) (h : LoginHead r.1.dev) : LoginHead (readyTail f r).1.dev := by
   unfold readyTail
@@ -136,7 +138,7 @@ theorem handleReady_loginHead (c : CS) (h : LoginHead c.dev) : LoginHead (handle
       · apply readyTail_loginHead
         split
         · split
-          · exact readyConnect_loginHead c
+          · exact readyConnect_loginHead c h
           · exact (readyWrite_sameQueue c).loginHead h
         · exact h
 
@@ -374,7 +376,7 @@ theorem failAll_fifo (rest : List Action) (c : CS) (a : Action) (o : Oracle) (ou
     clientIds (failAll rest c a o out tmo).1.dev.acts = [] := by
   unfold failAll
   dsimp only
-  have hr := reconnectDev_clientIds_empty { c with dev := { c.dev with acts := [] } } tmo rfl
+  have hr := reconnectDev_clientIds_empty { c with dev := { c.dev with acts := [], xmStr := none, xmResult := false, xmUsed := false } } tmo rfl
   split
   · generalize reconnectDev _ tmo = r at *
     simp only [finishesOf_append, finishesOf_headFin, finishesOf_restFin, clientIds_cons, hr]
@@ -496,7 +498,7 @@ def onRunStep (rest : List Action) (c : CS) (a : Action) (o : Oracle) (out : Lis
     let a' := advance r.act
     if a'.exec.isEmpty then
       let fin := if a'.clientId != 0 then [Out.finish a'.clientId .success] else []
-      let dev := { r.dev with acts := rest, loggedIn := r.dev.loggedIn || a'.com == 0, statActions := r.dev.statActions + 1 }
+      let dev := { r.dev with acts := rest, loggedIn := r.dev.loggedIn || a'.com == 0, statActions := r.dev.statActions + 1, xmStr := none, xmResult := false, xmUsed := false }
       (({ c with dev := dev }, r.oracle, out ++ fin, tmo), true)
     else (({ c with dev := { r.dev with acts := a' :: rest } }, r.oracle, out, tmo), true)
   else (failAll rest { c with dev := r.dev } r.act r.oracle out tmo, false)
@@ -972,13 +974,9 @@ theorem finishConnectOne_buf (c : CS) : (finishConnectOne c).1.dev.toBuf = c.dev
     (finishConnectOne c).1.dev.retryCount = c.dev.retryCount := by
   unfold finishConnectOne; grind
 theorem connectOne_buf (c : CS) : (connectOne c).1.dev.toBuf = c.dev.toBuf ∧
-    (connectOne c).1.dev.retryCount = c.dev.retryCount := by
-  have := finishConnectOne_buf
-  unfold connectOne; grind
+    (connectOne c).1.dev.retryCount = c.dev.retryCount := ⟨(connectOne_frame c).dev.toBuf, (connectOne_frame c).dev.retryCount⟩
 theorem tcpConnect_buf (c : CS) : (tcpConnect c).1.dev.toBuf = c.dev.toBuf ∧
-    (tcpConnect c).1.dev.retryCount = c.dev.retryCount := by
-  have := connectOne_buf
-  unfold tcpConnect; grind
+    (tcpConnect c).1.dev.retryCount = c.dev.retryCount := ⟨(tcpConnect_frame c).dev.toBuf, (tcpConnect_frame c).dev.retryCount⟩
 theorem pipeConnect_buf (c : CS) : (pipeConnect c).1.dev.toBuf = c.dev.toBuf ∧
     (pipeConnect c).1.dev.retryCount = c.dev.retryCount := by
   unfold pipeConnect; grind
@@ -1054,7 +1052,7 @@ theorem failAll_buf (rest : List Action) (c : CS) (a : Action) (o : Oracle) (out
   split
   · rename_i h2
     have h2' : c.dev.conn = 2 := by simpa using h2
-    have := reconnectDev_flush { c with dev := { c.dev with acts := [] } } tmo (by simp [h2'])
+    have := reconnectDev_flush { c with dev := { c.dev with acts := [], xmStr := none, xmResult := false, xmUsed := false } } tmo (by simp [h2'])
     generalize reconnectDev _ tmo = r at *
     right
     refine ⟨this.1, h2', ?_⟩
@@ -1275,11 +1273,12 @@ theorem readyTail_buf (f : Nat) (r : CS × Bool × Bool) (c : CS)
         · exact ⟨r.1.dev.toBuf, reply, h1, Or.inr ⟨wr, h.1, h.2.1, hsys _ h.2.2⟩, h2'⟩
       · exact base
 
-theorem readyConnectFail_toBuf (c : CS) : (readyConnectFail c).dev.toBuf = c.dev.toBuf := by
-  unfold readyConnectFail; split <;> rfl
+theorem readyConnectFail_toBuf (c : CS) : (readyConnectFail c).dev.toBuf = c.dev.toBuf := (finishConnectFail_frame c).dev.toBuf
 
 theorem readyConnect_toBuf (c : CS) : (readyConnect c).1.dev.toBuf = c.dev.toBuf ∧ (readyConnect c).2.2 = true := by
   unfold readyConnect readyConnectTail
+  split
+  · exact ⟨rfl, rfl⟩
   have h1 := (finishConnectOne_buf c).1
   have h2 := readyConnectFail_toBuf (finishConnectOne c).1
   generalize finishConnectOne c = r at *
@@ -1429,12 +1428,8 @@ theorem SameQueue.freshLink {d d' : Dev} (s : SameQueue d d') (h : FreshLink d) 
 
 theorem finishConnectOne_loggedIn (c : CS) : (finishConnectOne c).1.dev.loggedIn = c.dev.loggedIn := by
   unfold finishConnectOne; grind
-theorem connectOne_loggedIn (c : CS) : (connectOne c).1.dev.loggedIn = c.dev.loggedIn := by
-  have := finishConnectOne_loggedIn
-  unfold connectOne; grind
-theorem tcpConnect_loggedIn (c : CS) : (tcpConnect c).1.dev.loggedIn = c.dev.loggedIn := by
-  have := connectOne_loggedIn
-  unfold tcpConnect; grind
+theorem connectOne_loggedIn (c : CS) : (connectOne c).1.dev.loggedIn = c.dev.loggedIn := (connectOne_frame c).dev.loggedIn
+theorem tcpConnect_loggedIn (c : CS) : (tcpConnect c).1.dev.loggedIn = c.dev.loggedIn := (tcpConnect_frame c).dev.loggedIn
 theorem pipeConnect_loggedIn (c : CS) : (pipeConnect c).1.dev.loggedIn = c.dev.loggedIn := by
   unfold pipeConnect; grind
 
@@ -1477,9 +1472,11 @@ theorem FreshLink.of_loggedOut {d : Dev} (h : d.loggedIn = false) : FreshLink d 
 
 theorem readyConnect_loggedIn (c : CS) : (readyConnect c).1.dev.loggedIn = c.dev.loggedIn := by
   unfold readyConnect readyConnectTail
+  split
+  · rfl
   have h1 := finishConnectOne_loggedIn c
-  have h2 : (readyConnectFail (finishConnectOne c).1).dev.loggedIn = (finishConnectOne c).1.dev.loggedIn := by
-    unfold readyConnectFail; split <;> rfl
+  have h2 : (readyConnectFail (finishConnectOne c).1).dev.loggedIn = (finishConnectOne c).1.dev.loggedIn :=
+    (finishConnectFail_frame _).dev.loggedIn
   generalize finishConnectOne c = r at *
   have h3 : (if r.2 = true then r.1 else readyConnectFail r.1).dev.loggedIn = c.dev.loggedIn := by
     split
@@ -1796,9 +1793,11 @@ theorem SameClients.trans {a b c : Dev} (h1 : SameClients a b) (h2 : SameClients
 
 theorem readyConnect_clients (c : CS) (h : NoClientLogin c.dev) : SameClients c.dev (readyConnect c).1.dev := by
   unfold readyConnect readyConnectTail
+  split
+  · exact SameClients.of_acts h rfl
   have h1 := finishConnectOne_acts c
-  have h2 : (readyConnectFail (finishConnectOne c).1).dev.acts = (finishConnectOne c).1.dev.acts := by
-    unfold readyConnectFail; split <;> rfl
+  have h2 : (readyConnectFail (finishConnectOne c).1).dev.acts = (finishConnectOne c).1.dev.acts :=
+    (finishConnectFail_frame _).dev.acts
   generalize finishConnectOne c = r at *
   have h3 : (if r.2 = true then r.1 else readyConnectFail r.1).dev.acts = c.dev.acts := by
     split
